@@ -65,7 +65,7 @@ def session_tokens(tr):
             f0 = st_fields(blk)
             if f0:
                 toks.append("init:%s:%s:%s:%s" % (f0["basis"], f0["cache"], f0["factorok"], f0["qstatus"]))
-        if w in ("new", "create", "sol", "state", "dumpapi"):
+        if w in ("new", "newcg", "create", "sol", "state", "dumpapi"):
             continue
         after = st_fields(blk) if w == "solve" else None
         if after is None:
@@ -80,7 +80,10 @@ def session_tokens(tr):
             how = op.split(" ")[2]
             rv, stt = proto.get(blk, "rval", ["1"])[0], proto.get(blk, "status", ["0"])[0]
             after = dict(after, solve_status=stt if rv == "0" else "err")
-            toks.append({"primal": "optprimal", "dual": "optdual", "exact": "exact"}[how] + ":%s:%s" % (stt, rv))
+            tk = {"primal": "optprimal", "dual": "optdual", "exact": "exact"}[how] + ":%s:%s" % (stt, rv)
+            if how == "exact":
+                tk += ":%s:%s" % (after["basis"], after["factorok"])      # oracle for the non-optimal outcomes (by-products of the basis tests)
+            toks.append(tk)
         elif rc == ["1"]:
             toks.append("failed")
         elif w in ("addcol", "newcol"):
@@ -153,7 +156,7 @@ def run(pid, tier, seed):
     for k in range(70 if quick else 900):
         r = rng.fork("h%d" % k)
         lp = r.choice(seeds)
-        start = "new 0 " + lp.line()
+        start = ("newcg 0 " if r.chance(0.3) else "new 0 ") + lp.line()
         if r.chance(0.25):
             # objective limits: a dormant limit of the other sense must come alive when the objective sense is flipped
             start += " ;; setlim 0 %s %s" % (r.choice("UL"), r.choice(["10", "-30", "0", "5/2", "-4"]))
@@ -169,12 +172,15 @@ def run(pid, tier, seed):
              # columns entering a live basis with every bound shape (which bound the new non-basic column starts at)
              "addcol 0 - -2 -inf 2 1 0 1", "addcol 0 - 1 -inf 7 1 0 1", "newcol 0 - -1 -inf 3", "addcol 0 - 1 -inf inf 1 1 1",
              "addcol 0 - -1 -5 3 2 0 1 1 1", "addcol 0 - 1 -3 50 1 1 2", "addrow 0 - G -2 1 0 1", "addrow 0 - E 1 2 0 1 1 -1",
-             "chgbound 0 0 L -3", "chgbound 0 1 U 0", "chgbound 0 0 B 1", "chgrhs 0 1 -1", "chgcoef 0 1 1 0"]
+             "chgbound 0 0 L -3", "chgbound 0 1 U 0", "chgbound 0 0 B 1", "chgrhs 0 1 -1", "chgcoef 0 1 1 0",
+             "chgobj 0 0 0", "chgobj 0 1 0", "chgsense 0 0 R", "chgsenses 0 2 0 R 1 R", "chgsenses 0 2 0 L 1 R"]
     for lp in small:
         for s1 in ("solve 0 dual", "solve 0 primal", "solve 0 exact primal none"):
             for e in edits:
                 for s2 in ("solve 0 dual", "solve 0 primal") + (("solve 0 exact dual none",) if not quick else ()):
                     jobs.append(("new 0 " + lp.line(), [s1, e, s2], "exhaustive"))
+                    if s2 == "solve 0 primal" and e.split()[0] in ("chgobj", "chgcoef", "chgbound", "chgrhs", "delcol", "chgsense", "chgsenses", "chgrange"):
+                        jobs.append(("newcg 0 " + lp.line(), [s1, e, s2], "exhaustive-rowsfirst"))
             for lim in ("setlim 0 U 10", "setlim 0 L -30", "setlim 0 U -3", "setlim 0 L 4"):
                 for e in ("chgobjsense 0 max", "chgobjsense 0 min"):
                     jobs.append(("new 0 " + lp.line() + " ;; " + lim, [s1, e, "solve 0 dual"], "exhaustive-limits"))
@@ -290,7 +296,7 @@ def run(pid, tier, seed):
                         rep.violation("after %s the accessors still serve objective value %s; the problem as it stands has optimum %s" %
                                       (last_edit, ov[1], proto.get(f, "objval")[1]), ctx,
                                       signature={"symptom": "stale-objval", "edit": (last_edit or "-").split(" ")[0]})
-            elif w not in ("state", "dumpapi", "new"):
+            elif w not in ("state", "dumpapi", "new", "newcg"):
                 last_edit = op
                 ev.stat("op:" + w)
         if len(ev.cov["samples"]) < 3 and not tr.crashed:
